@@ -55,7 +55,7 @@ def frames(case):
     return base, feed
 
 
-def run_case(case, client_obj=None, extra_kwargs=None, want_client=False):
+def run_case(case, client_obj=None, extra_kwargs=None, want_client=False, omit_model_parameters=False):
     """returns dict: {'ok': bool, 'tables': {name: DataFrame}, 'exc': (type name, msg)}"""
     client = _imp()
     base, feed = frames(case)
@@ -86,7 +86,7 @@ def run_case(case, client_obj=None, extra_kwargs=None, want_client=False):
             geographic_unit_type=case["unit_type"],
             raw_config=gen.make_config(case),
             preprocessed_data=base.copy(),
-            model_parameters=dict(p.get("model_parameters", {})),
+            **({} if omit_model_parameters else {"model_parameters": dict(p.get("model_parameters", {}))}),
             **kwargs,
         )
         out["ok"] = True
